@@ -1531,3 +1531,47 @@ Proof.
   exact (gpredict_dense jit floor m d L P Xt Hst Hfresh Hsq Hsym Hok Hy HlA means vars Hpred t alpha beta Ht
                         Ha' Hb' Halpha Hbeta).
 Qed.
+
+(* ---- sample_posterior_joint: the index map of the draws (every carrier) ------------------------------- *)
+Section JointLayout.
+Variable N : Num.
+
+Lemma chunk_concat {A} (size : nat) (rows : list (list A)) :
+  Forall (fun r => length r = size) rows -> chunk size (length rows) (concat rows) = rows.
+Proof.
+  induction 1 as [|r rows Hr _ IH]; [reflexivity|]. cbn [length concat chunk].
+  rewrite firstn_app, (firstn_all2 r) by lia. replace (size - length r)%nat with 0%nat by lia.
+  cbn [firstn]. rewrite app_nil_r. f_equal.
+  rewrite skipn_app, (skipn_all2 r) by lia. replace (size - length r)%nat with 0%nat by lia.
+  cbn [skipn app]. exact IH.
+Qed.
+
+Lemma concat_nth_flat {A} (size : nat) (rows : list (list A)) (d : A) : forall j s,
+  Forall (fun r => length r = size) rows -> (j < length rows)%nat -> (s < size)%nat ->
+  nth (j * size + s) (concat rows) d = nth s (nth j rows []) d.
+Proof.
+  intros j s H. revert j. induction H as [|r rows Hr _ IH]; intros j Hj Hs; simpl in Hj; [lia|].
+  destruct j as [|j]; cbn [concat nth].
+  - rewrite app_nth1 by lia. reflexivity.
+  - rewrite app_nth2 by (rewrite Hr; simpl; lia).
+    replace (S j * size + s - length r)%nat with (j * size + s)%nat by (rewrite Hr; simpl; lia).
+    apply IH; lia.
+Qed.
+
+(* sample s of fantasy column j = L z_{j,s} + posterior mean of column j; and the draw used is the flat
+   column j * num_samples + s of the noise matrix *)
+Lemma joint_samples_layout (lfact : mat N) (mean_cols : list (vec N)) (zc : list (list (vec N))) (S : nat) :
+  Forall (fun r => length r = S) zc -> length zc = length mean_cols ->
+  joint_samples N lfact mean_cols zc S =
+  map2 (fun mj zrow => map (fun z => vadd N (mv N lfact z) mj) zrow) mean_cols zc.
+Proof.
+  intros HS Hl. unfold joint_samples.
+  rewrite concat_map, <- Hl.
+  rewrite <- (map_length (map (fun z => mv N lfact z)) zc).
+  rewrite chunk_concat.
+  - clear HS Hl. revert zc. induction mean_cols as [|mj mc IH]; intros [|zr zc]; simpl; try reflexivity.
+    rewrite IH, map_map. reflexivity.
+  - apply Forall_forall. intros r Hr. apply in_map_iff in Hr as [r0 [<- Hin]].
+    rewrite map_length. rewrite Forall_forall in HS. apply HS. exact Hin.
+Qed.
+End JointLayout.
